@@ -1,0 +1,11 @@
+//go:build !verif
+
+package protocol
+
+// Empty stubs for the verification hooks (see verif_on.go, build tag "verif").
+
+func (p *Protocol) verifPt(string)                     {}
+func (p *Protocol) verifMsg(string, Message, int)      {}
+func (p *Protocol) verifTrans(Message, State, error)   {}
+func (p *Protocol) verifAdmit(string, State, int, int) {}
+func (p *Protocol) verifErr(error)                     {}
